@@ -889,7 +889,16 @@ class Interp:
             if c_eff is FALSE:
                 continue
             ea["$pc"] = ea["$pc"] + ((c,) if c is not TRUE else ())
+            n_rets = len(fr.rets)
             res = self.expr(arm["body"], ea, fr)
+            if res is None and remaining is not TRUE and len(fr.rets) > n_rets:
+                # an arm that leaves the function is only reached when no earlier arm matched: say so in the path condition of its returns
+                # (the value flows are first-match ordered; a later arm's `return` must not look unconditional)
+                base = len(env["$pc"])
+                negs = tuple(not_(c_) for c_, _ in results)
+                for k_ in range(n_rets, len(fr.rets)):
+                    pc_, v_, e_ = fr.rets[k_]
+                    fr.rets[k_] = (tuple(pc_[:base]) + negs + tuple(pc_[base:]), v_, e_)
             results.append((c, res))
             remaining = and_(remaining, not_(c))
             if c is TRUE or remaining is FALSE:
@@ -1168,11 +1177,26 @@ class Interp:
                 self.bind(pat, item, eb, fr)
                 res = self.expr(body, eb, fr)
                 lp = fr.loops.pop()
-                if lp["brk"] or lp["cont"]:
-                    self.note(fr, "break/continue inside unrolled loop not modelled", e)
-                if res is None:
-                    return None
-                cur = res[1]
+                if lp["brk"]:
+                    self.note(fr, "break inside unrolled loop not modelled", e)
+                # the next iteration starts from wherever this one fell through or said `continue`
+                nxt = ([res[1]] if res is not None else []) + list(lp["cont"])
+                if not nxt:
+                    return None          # every path of the body left the function
+                if len(nxt) == 1:
+                    cur = {k: v for k, v in nxt[0].items() if k in cur or k == "$pc"}
+                else:
+                    pcs = [tuple(e_["$pc"]) for e_ in nxt]
+                    n_ = 0
+                    while all(len(pc_) > n_ and pc_[n_] is pcs[0][n_] for pc_ in pcs):
+                        n_ += 1
+                    merged = {"$pc": pcs[0][:n_]}
+                    for k in cur:
+                        if k == "$pc":
+                            continue
+                        vals = [(pc_, e_.get(k, cur[k])) for pc_, e_ in zip(pcs, nxt)]
+                        merged[k] = vals[0][1] if all(v_ is vals[0][1] for _, v_ in vals) else self.assemble(vals)
+                    cur = merged
             return (UNIT, cur)
         cp = self.copy_loop(it, pat, body, env)
         if cp is not None:
